@@ -164,7 +164,7 @@ class _Gen:
         if self.have("f", (2, 2)):
             ops += ["qr"] * 4
         if self.have("i", pred=lambda k, s: len(s) == 1) and f_vec:
-            ops += ["take"] * 3
+            ops += ["take"] * 10
         return ops
 
     def add_op(self):
